@@ -9,7 +9,7 @@ def cfg(maxtok, nslices, slice_):
 def run(r):
     th = r.tier == "thorough"
     s = r.seed
-    plans = [(3, 1, [0]), (4, 8, [s % 8])] if not th else [(4, 1, [0]), (5, 24, [(s + i) % 24 for i in range(3)])]
+    plans = [(3, 1, [0]), (4, 8, [s % 8])] if not th else [(4, 1, [0]), (5, 36, [(s + i) % 36 for i in range(3)])]
     res = []
     for (mt, ns, sls) in plans:
         for sl in sls:
